@@ -7,14 +7,24 @@ import (
 )
 
 
-// hash.Hash whose digest is an arbitrary byte string (an uninterpreted function of the content)
-type vHash struct{ sum []byte }
+// hash.Hash whose digest is an arbitrary byte string (an uninterpreted function of the content): after exactly one file
+// has been fed since the last Reset the digest is that file's (sum); in any other state - nothing fed, or a second file
+// fed on top of the first - it is some other arbitrary byte string (other).
+type vHash struct {
+	sum, other []byte
+	fed        int
+}
 
 func (h *vHash) Write(p []byte) (int, error) { return len(p), nil }
-func (h *vHash) Sum(b []byte) []byte          { return h.sum }
-func (h *vHash) Reset()                       {}
-func (h *vHash) Size() int                    { return len(h.sum) }
-func (h *vHash) BlockSize() int               { return 1 }
+func (h *vHash) Sum(b []byte) []byte {
+	if h.fed == 1 {
+		return h.sum
+	}
+	return h.other
+}
+func (h *vHash) Reset()         { h.fed = 0 }
+func (h *vHash) Size() int      { return len(h.sum) }
+func (h *vHash) BlockSize() int { return 1 }
 
 var openFails bool
 
@@ -30,7 +40,12 @@ func mOpen(name string) (*os.File, error) {
 func mFileClose(f *os.File) error { return nil }
 
 //verif:model io.Copy
-func mCopy(dst io.Writer, src io.Reader) (int64, error) { return 0, nil }
+func mCopy(dst io.Writer, src io.Reader) (int64, error) {
+	if h, ok := dst.(*vHash); ok {
+		h.fed++
+	}
+	return 0, nil
+}
 
 
 func harnessC13() {
@@ -38,7 +53,8 @@ func harnessC13() {
 	d := vNondetBytes("d", maxLen)   // the digest of the file
 	c := vNondetBytes("c", maxLen+1) // the configured checksum: any length, any bytes
 	openFails = vNondetBool("openFails")
-	sc := &SecureConfig{Checksum: c, Hash: &vHash{sum: d}}
+	h := &vHash{sum: d, other: vNondetBytes("other", maxLen)}
+	sc := &SecureConfig{Checksum: c, Hash: h}
 	if vChoice(2) == 1 {
 		sc.Hash = nil
 	}
@@ -75,6 +91,22 @@ func harnessC13() {
 			vCover("mismatch")
 		}
 		vAssert(ok == equal, "C13: Check is true iff checksum equals digest byte for byte")
+		// the same SecureConfig checked again (a host that restarts its plugin from the same configuration): the file may
+		// have been replaced meanwhile (digest d2, possibly equal to d); the answer is about the file as it is now
+		d2 := vNondetBytes("d2", maxLen)
+		h.sum = d2
+		ok2, err2 := sc.Check("/bin/plugin")
+		equal2 := len(c) == len(d2)
+		if equal2 {
+			for i := 0; i < len(c); i++ {
+				if c[i] != d2[i] {
+					equal2 = false
+				}
+			}
+		}
+		vAssert(err2 == nil, "C13: a second check of a readable file is no error")
+		vAssert(ok2 == equal2, "C13: a second check on the same SecureConfig is true iff the checksum equals the digest of the file as it is now")
+		vCover("checked-twice")
 	}
 	vDone()
 }
